@@ -531,7 +531,13 @@ func c11pasteLive(r *core.Run) {
 		term := vt.New(30, 6)
 		var ls *liveScreen
 		var err error
-		ls, err = startScreen(ti, 30, 6, func(b []byte) { term.Feed(b) })
+		shared := k%2 == 1 // every second screen on the registry's own (shared) description
+		if shared {
+			ls, err = startScreenShared("xterm-256color", 30, 6, func(b []byte) { term.Feed(b) })
+			r.Count("live_paste_rounds_on_shared_description", 1)
+		} else {
+			ls, err = startScreen(ti, 30, 6, func(b []byte) { term.Feed(b) })
+		}
 		if err != nil {
 			r.Inconclusive(err.Error())
 			return
@@ -595,7 +601,7 @@ func c11pasteLive(r *core.Run) {
 			want = append(want, NEv{T: "paste", Flag: false})
 		}
 		if !evsEq(got, want) {
-			r.Violate("paste:live", fmt.Sprintf("after %v the terminal is in bracketed-paste mode: %v; the user pastes %q: delivered %s, expected %s", trace, mode, text, evsStr(got), evsStr(want)), nil)
+			r.Violate("paste:live", fmt.Sprintf("screen %d of the process (shared registry description: %v): after %v the terminal is in bracketed-paste mode: %v; the user pastes %q: delivered %s, expected %s", k+1, shared, trace, mode, text, evsStr(got), evsStr(want)), nil)
 			return
 		}
 	}
